@@ -3008,30 +3008,71 @@ func (c S3ApiController) DeleteObjects(ctx *fiber.Ctx) error {
 		}
 	}
 
-	err = auth.VerifyAccess(ctx.Context(), c.be,
-		auth.AccessOptions{
-			Readonly:      c.readonly,
-			Acl:           parsedAcl,
-			AclPermission: auth.PermissionWrite,
-			IsRoot:        isRoot,
-			Acc:           acct,
-			Bucket:        bucket,
-			Action:        auth.DeleteObjectAction,
-		})
-	if err != nil {
-		return SendResponse(ctx, err,
-			&MetaOpts{
-				Logger:      c.logger,
-				MetricsMng:  c.mm,
-				Action:      metrics.ActionDeleteObjects,
-				BucketOwner: parsedAcl.Owner,
+	if c.readonly || len(dObj.Objects) == 0 {
+		err = auth.VerifyAccess(ctx.Context(), c.be,
+			auth.AccessOptions{
+				Readonly:      c.readonly,
+				Acl:           parsedAcl,
+				AclPermission: auth.PermissionWrite,
+				IsRoot:        isRoot,
+				Acc:           acct,
+				Bucket:        bucket,
+				Action:        auth.DeleteObjectAction,
 			})
+		if err != nil {
+			return SendResponse(ctx, err,
+				&MetaOpts{
+					Logger:      c.logger,
+					MetricsMng:  c.mm,
+					Action:      metrics.ActionDeleteObjects,
+					BucketOwner: parsedAcl.Owner,
+				})
+		}
+	}
+
+	// s3:DeleteObject is an object level permission: the decision is taken
+	// for every key of the batch; keys the caller may not delete are
+	// reported as errors and left alone
+	permitted := make([]types.ObjectIdentifier, 0, len(dObj.Objects))
+	var denied []types.Error
+	for _, obj := range dObj.Objects {
+		err = auth.VerifyAccess(ctx.Context(), c.be,
+			auth.AccessOptions{
+				Readonly:      c.readonly,
+				Acl:           parsedAcl,
+				AclPermission: auth.PermissionWrite,
+				IsRoot:        isRoot,
+				Acc:           acct,
+				Bucket:        bucket,
+				Object:        *obj.Key,
+				Action:        auth.DeleteObjectAction,
+			})
+		if err == nil {
+			permitted = append(permitted, obj)
+			continue
+		}
+		apiErr, ok := err.(s3err.APIError)
+		if !ok {
+			return SendResponse(ctx, err,
+				&MetaOpts{
+					Logger:      c.logger,
+					MetricsMng:  c.mm,
+					Action:      metrics.ActionDeleteObjects,
+					BucketOwner: parsedAcl.Owner,
+				})
+		}
+		denied = append(denied, types.Error{
+			Key:       obj.Key,
+			VersionId: obj.VersionId,
+			Code:      &apiErr.Code,
+			Message:   &apiErr.Description,
+		})
 	}
 
 	// The AWS CLI sends 'True', while Go SDK sends 'true'
 	bypass := strings.EqualFold(bypassHdr, "true")
 
-	err = auth.CheckObjectAccess(ctx.Context(), bucket, acct.Access, dObj.Objects, bypass, c.be)
+	err = auth.CheckObjectAccess(ctx.Context(), bucket, acct.Access, permitted, bypass, c.be)
 	if err != nil {
 		return SendResponse(ctx, err,
 			&MetaOpts{
@@ -3042,13 +3083,17 @@ func (c S3ApiController) DeleteObjects(ctx *fiber.Ctx) error {
 			})
 	}
 
-	res, err := c.be.DeleteObjects(ctx.Context(),
-		&s3.DeleteObjectsInput{
-			Bucket: &bucket,
-			Delete: &types.Delete{
-				Objects: dObj.Objects,
-			},
-		})
+	var res s3response.DeleteResult
+	if len(permitted) != 0 || len(denied) == 0 {
+		res, err = c.be.DeleteObjects(ctx.Context(),
+			&s3.DeleteObjectsInput{
+				Bucket: &bucket,
+				Delete: &types.Delete{
+					Objects: permitted,
+				},
+			})
+	}
+	res.Error = append(res.Error, denied...)
 	return SendXMLResponse(ctx, res, err,
 		&MetaOpts{
 			Logger:      c.logger,
